@@ -149,8 +149,20 @@ def malformed(rng):
     return out
 
 
+def integer_position_cases():
+    """open lattices whose vertex positions are handed over as integer arrays (whole-number coordinates, which numpy types int64): everything, the centres included,
+    must be what the same lattice gives with the same numbers as floats"""
+    quad = (np.array([[0, 0], [3, 0], [4, 3], [1, 2]]), np.array([[0, 1], [1, 2], [2, 3], [3, 0]]))
+    strip = (np.array([[0, 0], [2, 0], [5, 1], [7, 0], [7, 3], [4, 4], [2, 3], [0, 2]]), np.array([[0, 1], [1, 2], [2, 3], [3, 4], [4, 5], [5, 6], [6, 7], [7, 0], [1, 6], [2, 5]]))
+    out = []
+    for nm, (P, E) in (("int-quad", quad), ("int-strip", strip)):
+        for dt in (np.int64, np.int32):
+            out.append((f"{nm}-{np.dtype(dt).name}", "example", Lattice(P.astype(dt), E, np.zeros_like(E))))
+    return out
+
+
 def build_cases(ctx, rng):
-    cases = list(zoo.fixed_examples())
+    cases = list(zoo.fixed_examples()) + integer_position_cases()
     if ctx.tier == "quick":
         cases += zoo.random_cases(rng, 130, max_seeds=40)
         cases += list(zoo.edge_subsets(rng, 600))
